@@ -1097,6 +1097,9 @@ class Sim:
             pixels = None
             attrs[tr.features.position_key] = [0.5] * len(self.fshape)
             nopix = True
+        if inv == "bad_value":
+            # invalid request: an attribute value that cannot be stored (a 0-d array)
+            attrs["note"] = np.asarray(1.0)
         if inv == "bad_pixels":
             # invalid request: a mask that cannot be painted - an index outside the array,
             # or any mask on tracks that have no segmentation
